@@ -193,15 +193,30 @@ impl Validator<'_> {
             })
             .transpose()?;
 
+        // The level of the previous alternative, which an alternative without a precedence
+        // attribute inherits.
+        let mut cur_lvl: Option<u32> = None;
+
         // Check that attributes are well-formed
         alternatives.iter().try_for_each(|alt| {
             let attr_prec_opt = alt.attributes.iter().find(|attr| attr.id == *precedence::PREC_ATTR);
             let attr_assoc_opt = alt.attributes.iter().find(|attr| attr.id == *precedence::ASSOC_ATTR);
 
+            if attr_prec_opt.is_none() {
+                // An associativity on an alternative that inherits the (so far) minimum
+                // level is an associativity on the first level as well.
+                if let Some(lvl) = cur_lvl {
+                    if lvl == min_lvl && min_prec_ann.is_none() && attr_assoc_opt.is_some() {
+                        min_prec_ann = attr_assoc_opt;
+                    }
+                }
+            }
+
             if let Some(attr_prec) = attr_prec_opt {
                 match attr_prec.get_arg_equal() {
                     Some((name, value)) if name == &Atom::from(precedence::LVL_ARG) => {
                         if let Ok(lvl) = value.parse::<u32>() {
+                            cur_lvl = Some(lvl);
                             if lvl < min_lvl {
                                 min_lvl = lvl;
                                 min_prec_ann = attr_assoc_opt;
